@@ -199,4 +199,322 @@ theorem char_sim {B : List Int} {st : PState} (hI : Inv nrow ncol cw B st) (pos 
     rw [hK, e']; simp only [tryC_ok]
     congr 2
 
+/-! ## the two diagonal sweeps -/
+
+when_kernel Gzx.Gen.K08bPlace.place in
+/-- `if GUARD && !this.hasBit(col, row) { this.utah(row, col, pos); pos++ }` as the kernel runs it -/
+def condUtah (cws : List Int) (nrows ncols : Int) (g : Bool) (B : List Int) (pos r c : Int) : Ctl (List Int × Int) (List Int) :=
+  tryC ((if g then (tryR (Gen.K08bPlace.hasBit ncols B c r) fun t5 => Except.ok (!t5)) else Except.ok false : Res Bool)) fun t6 =>
+  if t6 then tryC (Gen.K08bPlace.utah cws nrows ncols B r c pos) fun t7 => .next (t7, pos + 1) else .next (B, pos)
+
+when_kernel Gzx.Gen.K08bPlace.place in
+theorem condUtah_sim {B : List Int} {st : PState} (hI : Inv nrow ncol cw B st) (pos : Nat) (hlen : st.seq.length = 8 * pos)
+    (g : Bool) (r c : Int) (hg : Good cw.length (if g = true then tryUtah nrow ncol st r c else st)) :
+    ∃ B' pos', condUtah (bytes cw) nrow ncol g B pos r c = .next (B', ((pos' : Nat) : Int)) ∧
+      Inv nrow ncol cw B' (if g = true then tryUtah nrow ncol st r c else st) ∧
+      (if g = true then tryUtah nrow ncol st r c else st).seq.length = 8 * pos' := by
+  cases g with
+  | false => exact ⟨B, pos, rfl, hI, hlen⟩
+  | true =>
+    simp only [if_true] at hg ⊢
+    obtain ⟨_, hoob⟩ := good_tryUtah hg
+    have hocc : occupied nrow ncol st r c = ((occupied nrow ncol st r c).1, false) := by rw [← hoob]
+    obtain ⟨h0, h1, ho⟩ := occupied_inside hocc
+    have hcl : (r * (ncol : Int) + c).toNat < B.length := by
+      rw [hI.len]
+      have : ((nrow * ncol : Nat) : Int) = (nrow : Int) * (ncol : Int) := Int.natCast_mul _ _
+      omega
+    have hhas := k_hasBit_eq ncol B c r (r * (ncol : Int) + c).toNat (by omega) hcl
+    have hb := hI.occ (r * (ncol : Int) + c).toNat (by rw [← hI.len]; exact hcl)
+    rw [List.getD_eq_getElem?_getD, List.getElem?_eq_getElem hcl, Option.getD_some] at hb
+    rw [tryUtah_eq] at hg ⊢
+    simp only [hoob, Bool.false_eq_true, if_false] at hg ⊢
+    unfold condUtah
+    simp only [if_true, hhas, tryR_ok, tryC_ok, ← hb, ← ho]
+    cases hoc : (occupied nrow ncol st r c).1 with
+    | true =>
+      simp only [hoc, if_true] at hg ⊢
+      exact ⟨B, pos, rfl, hI, hlen⟩
+    | false =>
+      simp only [hoc, Bool.false_eq_true, if_false, Bool.not_false, if_true] at hg ⊢
+      obtain ⟨B', pos', e, I', l'⟩ := char_sim hI pos hlen true (utahCells r c) rfl _
+        (utah_chain (bytes cw) nrow ncol B r c pos) (by simpa using hg)
+      simp only [if_true] at e I' l'
+      exact ⟨B', pos', e, I', l'⟩
+
+when_kernel Gzx.Gen.K08bPlace.place in
+theorem body2_eq (cws : List Int) (nrows ncols : Int) (B : List Int) (pos r c : Int) :
+    Gen.K08bPlace.place_body2 cws nrows ncols (B, pos, r, c) =
+      (condUtah cws nrows ncols (decide (r < nrows) && decide (c ≥ 0)) B pos r c).thenC fun st =>
+        if (decide (r - 2 < 0) || decide (c + 2 ≥ ncols)) then .brk (st.1, st.2, r - 2, c + 2) else .next (st.1, st.2, r - 2, c + 2) := by
+  unfold Gen.K08bPlace.place_body2 condUtah
+  simp only []
+  generalize (if (decide (r < nrows) && decide (c ≥ 0)) = true then
+    (tryR (Gen.K08bPlace.hasBit ncols B c r) fun t5 => Except.ok (!t5)) else Except.ok false : Res Bool) = X
+  cases X <;> rfl
+
+when_kernel Gzx.Gen.K08bPlace.place in
+theorem body3_eq (cws : List Int) (nrows ncols : Int) (B : List Int) (pos r c : Int) :
+    Gen.K08bPlace.place_body3 cws nrows ncols (B, pos, r, c) =
+      (condUtah cws nrows ncols (decide (r ≥ 0) && decide (c < ncols)) B pos r c).thenC fun st =>
+        if (decide (r + 2 ≥ nrows) || decide (c - 2 < 0)) then .brk (st.1, st.2, r + 2, c - 2) else .next (st.1, st.2, r + 2, c - 2) := by
+  unfold Gen.K08bPlace.place_body3 condUtah
+  simp only []
+  generalize (if (decide (r ≥ 0) && decide (c < ncols)) = true then
+    (tryR (Gen.K08bPlace.hasBit ncols B c r) fun t5 => Except.ok (!t5)) else Except.ok false : Res Bool) = X
+  cases X <;> rfl
+
+theorem ite_decide_and {α : Type} (p q : Prop) [Decidable p] [Decidable q] (a b : α) :
+    (if p ∧ q then a else b) = (if (decide p && decide q) = true then a else b) := by
+  by_cases hp : p <;> by_cases hq : q <;> simp [hp, hq]
+
+when_kernel Gzx.Gen.K08bPlace.place in
+/-- the upward sweep: the kernel's `for { … if row < 0 || col >= numcols { break } }` follows `DMRef.sweepUp` -/
+theorem sweepUp_sim : ∀ (f kf : Nat) (st : PState) (r c : Int) (B : List Int) (pos : Nat),
+    f < kf → Inv nrow ncol cw B st → st.seq.length = 8 * pos → Good cw.length (sweepUp nrow ncol f st r c).1 →
+    ∃ B' pos', whileLoop (Gen.K08bPlace.place_body2 (bytes cw) nrow ncol) kf (B, ((pos : Nat) : Int), r, c) =
+        .brk (B', ((pos' : Nat) : Int), (sweepUp nrow ncol f st r c).2.1, (sweepUp nrow ncol f st r c).2.2) ∧
+      Inv nrow ncol cw B' (sweepUp nrow ncol f st r c).1 ∧ (sweepUp nrow ncol f st r c).1.seq.length = 8 * pos' := by
+  intro f
+  induction f with
+  | zero => intro kf st r c B pos _ _ _ hg; exact absurd hg (by unfold sweepUp; exact not_good_bad)
+  | succ f ih =>
+    intro kf st r c B pos hkf hI hlen hg
+    obtain ⟨kf, rfl⟩ : ∃ k, kf = k + 1 := ⟨kf - 1, by omega⟩
+    rw [sweepUp_succ] at hg ⊢
+    rw [whileLoop_succ, body2_eq]
+    have hs1 : Good cw.length (if r < (nrow : Int) ∧ c ≥ 0 then tryUtah nrow ncol st r c else st) := by
+      by_cases hc : r - 2 ≥ 0 ∧ c + 2 < (ncol : Int)
+      · simp only [hc, and_self, if_true] at hg; exact good_sweepUp f _ _ _ hg
+      · simp only [hc, if_false] at hg; exact hg
+    rw [ite_decide_and] at hs1
+    obtain ⟨B1, pos1, e1, I1, l1⟩ := condUtah_sim hI pos hlen _ r c hs1
+    rw [e1]
+    simp only [next_thenC]
+    rw [← ite_decide_and] at I1 l1
+    by_cases hc : r - 2 ≥ 0 ∧ c + 2 < (ncol : Int)
+    · have hk : (decide (r - 2 < 0) || decide (c + 2 ≥ (ncol : Int))) = false := by
+        rw [Bool.or_eq_false_iff]; constructor <;> simp <;> omega
+      simp only [hc, and_self, if_true, hk, Bool.false_eq_true, if_false] at hg ⊢
+      exact ih kf _ (r - 2) (c + 2) B1 pos1 (by omega) I1 l1 hg
+    · have hk : (decide (r - 2 < 0) || decide (c + 2 ≥ (ncol : Int))) = true := by
+        rw [Bool.or_eq_true]; simp only [decide_eq_true_eq]; omega
+      simp only [hc, if_false, hk, if_true] at hg ⊢
+      exact ⟨B1, pos1, rfl, I1, l1⟩
+
+when_kernel Gzx.Gen.K08bPlace.place in
+/-- the downward sweep follows `DMRef.sweepDown` -/
+theorem sweepDown_sim : ∀ (f kf : Nat) (st : PState) (r c : Int) (B : List Int) (pos : Nat),
+    f < kf → Inv nrow ncol cw B st → st.seq.length = 8 * pos → Good cw.length (sweepDown nrow ncol f st r c).1 →
+    ∃ B' pos', whileLoop (Gen.K08bPlace.place_body3 (bytes cw) nrow ncol) kf (B, ((pos : Nat) : Int), r, c) =
+        .brk (B', ((pos' : Nat) : Int), (sweepDown nrow ncol f st r c).2.1, (sweepDown nrow ncol f st r c).2.2) ∧
+      Inv nrow ncol cw B' (sweepDown nrow ncol f st r c).1 ∧ (sweepDown nrow ncol f st r c).1.seq.length = 8 * pos' := by
+  intro f
+  induction f with
+  | zero => intro kf st r c B pos _ _ _ hg; exact absurd hg (by unfold sweepDown; exact not_good_bad)
+  | succ f ih =>
+    intro kf st r c B pos hkf hI hlen hg
+    obtain ⟨kf, rfl⟩ : ∃ k, kf = k + 1 := ⟨kf - 1, by omega⟩
+    rw [sweepDown_succ] at hg ⊢
+    rw [whileLoop_succ, body3_eq]
+    have hs1 : Good cw.length (if r ≥ 0 ∧ c < (ncol : Int) then tryUtah nrow ncol st r c else st) := by
+      by_cases hc : r + 2 < (nrow : Int) ∧ c - 2 ≥ 0
+      · simp only [hc, and_self, if_true] at hg; exact good_sweepDown f _ _ _ hg
+      · simp only [hc, if_false] at hg; exact hg
+    rw [ite_decide_and] at hs1
+    obtain ⟨B1, pos1, e1, I1, l1⟩ := condUtah_sim hI pos hlen _ r c hs1
+    rw [e1]
+    simp only [next_thenC]
+    rw [← ite_decide_and] at I1 l1
+    by_cases hc : r + 2 < (nrow : Int) ∧ c - 2 ≥ 0
+    · have hk : (decide (r + 2 ≥ (nrow : Int)) || decide (c - 2 < 0)) = false := by
+        rw [Bool.or_eq_false_iff]; constructor <;> simp <;> omega
+      simp only [hc, and_self, if_true, hk, Bool.false_eq_true, if_false] at hg ⊢
+      exact ih kf _ (r + 2) (c - 2) B1 pos1 (by omega) I1 l1 hg
+    · have hk : (decide (r + 2 ≥ (nrow : Int)) || decide (c - 2 < 0)) = true := by
+        rw [Bool.or_eq_true]; simp only [decide_eq_true_eq]; omega
+      simp only [hc, if_false, hk, if_true] at hg ⊢
+      exact ⟨B1, pos1, rfl, I1, l1⟩
+
+/-! ## the outer loop and `Place` -/
+
+theorem corner1Of_b (st : PState) (row col : Int) :
+    corner1Of nrow ncol st row col =
+      if ((row == (nrow : Int)) && (col == 0)) = true then moduleList nrow ncol st (corner1Cells nrow ncol) else st := by
+  unfold corner1Of
+  by_cases h1 : row = (nrow : Int) <;> by_cases h2 : col = 0 <;> simp [h1, h2]
+
+theorem corner2Of_b (st : PState) (row col : Int) :
+    corner2Of nrow ncol st row col =
+      if (((row == (nrow : Int) - 2) && (col == 0)) && (Int.tmod (ncol : Int) 4 != 0)) = true then
+        moduleList nrow ncol st (corner2Cells nrow ncol) else st := by
+  unfold corner2Of
+  have e : Int.tmod (ncol : Int) 4 = ((ncol % 4 : Nat) : Int) := by
+    rw [show (4 : Int) = ((4 : Nat) : Int) from rfl, tmod_natCast]
+  rw [e, natCast_bne_zero]
+  by_cases h1 : row = (nrow : Int) - 2 <;> by_cases h2 : col = 0 <;> by_cases h3 : ncol % 4 = 0 <;> simp [h1, h2, h3]
+
+theorem corner3Of_b (st : PState) (row col : Int) :
+    corner3Of nrow ncol st row col =
+      if (((row == (nrow : Int) - 2) && (col == 0)) && (Int.tmod (ncol : Int) 8 == 4)) = true then
+        moduleList nrow ncol st (corner3Cells nrow ncol) else st := by
+  unfold corner3Of
+  have e : Int.tmod (ncol : Int) 8 = ((ncol % 8 : Nat) : Int) := by
+    rw [show (8 : Int) = ((8 : Nat) : Int) from rfl, tmod_natCast]
+  rw [e]
+  have e4 : ((((ncol % 8 : Nat) : Int) == 4) : Bool) = decide (ncol % 8 = 4) := by
+    by_cases h : ncol % 8 = 4
+    · rw [h]; simp
+    · have : ¬ ((ncol % 8 : Nat) : Int) = 4 := by omega
+      rw [beq_eq_false_iff_ne.mpr this]; simp [h]
+  rw [e4]
+  by_cases h1 : row = (nrow : Int) - 2 <;> by_cases h2 : col = 0 <;> by_cases h3 : ncol % 8 = 4 <;> simp [h1, h2, h3]
+
+theorem corner4Of_b (st : PState) (row col : Int) :
+    corner4Of nrow ncol st row col =
+      if (((row == (nrow : Int) + 4) && (col == 2)) && (Int.tmod (ncol : Int) 8 == 0)) = true then
+        moduleList nrow ncol st (corner4Cells nrow ncol) else st := by
+  unfold corner4Of
+  have e : Int.tmod (ncol : Int) 8 = ((ncol % 8 : Nat) : Int) := by
+    rw [show (8 : Int) = ((8 : Nat) : Int) from rfl, tmod_natCast]
+  rw [e]
+  have e4 : ((((ncol % 8 : Nat) : Int) == 0) : Bool) = decide (ncol % 8 = 0) := by
+    by_cases h : ncol % 8 = 0
+    · rw [h]; simp
+    · have : ¬ ((ncol % 8 : Nat) : Int) = 0 := by omega
+      rw [beq_eq_false_iff_ne.mpr this]; simp [h]
+  rw [e4]
+  by_cases h1 : row = (nrow : Int) + 4 <;> by_cases h2 : col = 2 <;> by_cases h3 : ncol % 8 = 0 <;> simp [h1, h2, h3]
+
+when_kernel Gzx.Gen.K08bPlace.place in
+/-- one round of the outer loop: corner cases, sweep up, sweep down, the exit test -/
+theorem round_sim {B : List Int} {st : PState} (hI : Inv nrow ncol cw B st) (pos : Nat) (hlen : st.seq.length = 8 * pos)
+    (row col : Int) (fuel : Nat) (hf : nrow + ncol < fuel) (hg : Good cw.length (roundOf nrow ncol st row col).1) :
+    ∃ B' pos', Gen.K08bPlace.place_body1 fuel (bytes cw) nrow ncol (B, ((pos : Nat) : Int), row, col) =
+        (if (roundOf nrow ncol st row col).2.1 + 3 < nrow ∨ (roundOf nrow ncol st row col).2.2 + 1 < ncol then
+          Ctl.next (B', ((pos' : Nat) : Int), (roundOf nrow ncol st row col).2.1 + 3, (roundOf nrow ncol st row col).2.2 + 1)
+        else Ctl.brk (B', ((pos' : Nat) : Int), (roundOf nrow ncol st row col).2.1 + 3, (roundOf nrow ncol st row col).2.2 + 1)) ∧
+      Inv nrow ncol cw B' (roundOf nrow ncol st row col).1 ∧ (roundOf nrow ncol st row col).1.seq.length = 8 * pos' := by
+  have gUp := good_roundOf hg
+  have gC := good_sweepUp _ _ _ _ gUp
+  rw [corners_eq] at gC
+  have g4 := gC
+  rw [corner4Of_b] at g4
+  have g3 := good_ite_moduleList (p := _) g4
+  have g3' := g3
+  rw [corner3Of_b] at g3'
+  have g2 := good_ite_moduleList (p := _) g3'
+  have g2' := g2
+  rw [corner2Of_b] at g2'
+  have g1 := good_ite_moduleList (p := _) g2'
+  rw [corner1Of_b] at g1
+  obtain ⟨B1, p1, e1, I1, l1⟩ := char_sim hI pos hlen _ (corner1Cells nrow ncol) rfl _ (corner1_chain (bytes cw) B pos) g1
+  rw [← corner1Of_b] at I1 l1
+  obtain ⟨B2, p2, e2, I2, l2⟩ := char_sim I1 p1 l1 _ (corner2Cells nrow ncol) rfl _ (corner2_chain (bytes cw) B1 p1) g2'
+  rw [← corner2Of_b] at I2 l2
+  obtain ⟨B3, p3, e3, I3, l3⟩ := char_sim I2 p2 l2 _ (corner3Cells nrow ncol) rfl _ (corner3_chain (bytes cw) B2 p2) g3'
+  rw [← corner3Of_b] at I3 l3
+  obtain ⟨B4, p4, e4, I4, l4⟩ := char_sim I3 p3 l3 _ (corner4Cells nrow ncol) rfl _ (corner4_chain (bytes cw) B3 p3) g4
+  rw [← corner4Of_b, ← corners_eq] at I4 l4
+  obtain ⟨B5, p5, e5, I5, l5⟩ := sweepUp_sim (nrow + ncol) fuel _ row col B4 p4 hf I4 l4 gUp
+  obtain ⟨B6, p6, e6, I6, l6⟩ := sweepDown_sim (nrow + ncol) fuel _ _ _ B5 p5 hf I5 l5 hg
+  refine ⟨B6, p6, ?_, I6, l6⟩
+  unfold Gen.K08bPlace.place_body1
+  simp only []
+  rw [e1]; simp only [next_thenC]
+  rw [e2]; simp only [next_thenC]
+  rw [e3]; simp only [next_thenC]
+  rw [e4]; simp only [next_thenC]
+  rw [e5]; simp only [brk_thenC]
+  have e6' : whileLoop (Gen.K08bPlace.place_body3 (bytes cw) nrow ncol) fuel
+      (B5, ((p5 : Nat) : Int), (sweepUp nrow ncol (nrow + ncol) (corners nrow ncol st row col) row col).2.1 + 1,
+        (sweepUp nrow ncol (nrow + ncol) (corners nrow ncol st row col) row col).2.2 + 3) = _ := e6
+  rw [e6']; simp only [brk_thenC]
+  show (if (decide ((roundOf nrow ncol st row col).2.1 + 3 ≥ (nrow : Int)) &&
+      decide ((roundOf nrow ncol st row col).2.2 + 1 ≥ (ncol : Int))) = true then _ else _) = _
+  by_cases hc : (roundOf nrow ncol st row col).2.1 + 3 < nrow ∨ (roundOf nrow ncol st row col).2.2 + 1 < ncol
+  · have hk : (decide ((roundOf nrow ncol st row col).2.1 + 3 ≥ (nrow : Int)) &&
+        decide ((roundOf nrow ncol st row col).2.2 + 1 ≥ (ncol : Int))) = false := by
+      rw [Bool.and_eq_false_iff]; simp only [decide_eq_false_iff_not]; omega
+    simp only [hk, hc, Bool.false_eq_true, if_false, if_true]
+    rfl
+  · have hk : (decide ((roundOf nrow ncol st row col).2.1 + 3 ≥ (nrow : Int)) &&
+        decide ((roundOf nrow ncol st row col).2.2 + 1 ≥ (ncol : Int))) = true := by
+      rw [Bool.and_eq_true]; simp only [decide_eq_true_eq]; omega
+    simp only [hk, hc, if_false, if_true]
+    rfl
+
+when_kernel Gzx.Gen.K08bPlace.place in
+/-- the outer `for { … }` follows `DMRef.placeLoop` -/
+theorem placeLoop_sim (fuel : Nat) (hfu : nrow + ncol < fuel) : ∀ (f kf : Nat) (st : PState) (row col : Int) (B : List Int) (pos : Nat),
+    f < kf → Inv nrow ncol cw B st → st.seq.length = 8 * pos → Good cw.length (placeLoop nrow ncol f st row col) →
+    ∃ B' pos' r' c', whileLoop (Gen.K08bPlace.place_body1 fuel (bytes cw) nrow ncol) kf (B, ((pos : Nat) : Int), row, col) =
+        .brk (B', ((pos' : Nat) : Int), r', c') ∧ Inv nrow ncol cw B' (placeLoop nrow ncol f st row col) := by
+  intro f
+  induction f with
+  | zero => intro kf st row col B pos _ _ _ hg; exact absurd hg (by unfold placeLoop; exact not_good_bad)
+  | succ f ih =>
+    intro kf st row col B pos hkf hI hlen hg
+    obtain ⟨kf, rfl⟩ : ∃ k, kf = k + 1 := ⟨kf - 1, by omega⟩
+    have hr := good_placeLoop (f + 1) st row col hg
+    obtain ⟨B1, p1, e1, I1, l1⟩ := round_sim hI pos hlen row col fuel hfu hr
+    rw [placeLoop_succ] at hg ⊢
+    rw [whileLoop_succ, e1]
+    by_cases hc : (roundOf nrow ncol st row col).2.1 + 3 < nrow ∨ (roundOf nrow ncol st row col).2.2 + 1 < ncol
+    · simp only [hc, if_true] at hg ⊢
+      exact ih kf _ _ _ B1 p1 (by omega) I1 l1 hg
+    · simp only [hc, if_false] at hg ⊢
+      exact ⟨B1, p1, _, _, rfl, I1⟩
+
+/-- the `bits` array `Place()` leaves: every assigned cell holds its codeword bit (msb first, in the order of the reference
+    program), unassigned cells hold -1, and when the lower right corner was left free its two dark cells are set -/
+def placeBits (nrow ncol : Nat) (cw : List Nat) : List Int :=
+  let B := paint cw (placeSeq nrow ncol) 0 (List.replicate (nrow * ncol) (-1))
+  if fixedUsed nrow ncol then (B.set (nrow * ncol - 1) 1).set (nrow * ncol - ncol - 2) 1 else B
+
+when_kernel Gzx.Gen.K08bPlace.place in
+/-- **`DefaultPlacement.Place()`, Go source to ISO/IEC 16022 Annex F**: for every mapping-matrix size on which the reference
+    placement program stays inside the matrix, and every codeword vector long enough for the characters it places, the
+    regenerated `Place()` started on the fresh array (`NewDefaultPlacement`: all cells -1) does not panic and leaves exactly
+    `placeBits` — the reference program's cells painted with the codeword bits, plus the fixed corner pattern.
+    (`placement_total_injective`, Properties/C08: the side conditions hold for the 30 sizes of Table 7 with `8 x total` cells.) -/
+theorem k_place_eq (nrow ncol : Nat) (cw : List Nat) (fuel : Nat) (h2r : 2 ≤ nrow) (h2c : 2 ≤ ncol)
+    (hb : (placeState nrow ncol).bad = false) (hl : (placeState nrow ncol).seq.length ≤ 8 * cw.length)
+    (hf : nrow + ncol < fuel) :
+    Gen.K08bPlace.place fuel (bytes cw) nrow ncol (List.replicate (nrow * ncol) (-1)) = .ok (placeBits nrow ncol cw) := by
+  have hg : Good cw.length (placeLoop nrow ncol (nrow + ncol) {} 4 0) := ⟨hb, hl⟩
+  obtain ⟨B', pos', r', c', e, I'⟩ := placeLoop_sim (cw := cw) fuel hf (nrow + ncol) fuel {} 4 0
+    (List.replicate (nrow * ncol) (-1)) 0 hf (inv_init nrow ncol cw) rfl hg
+  unfold Gen.K08bPlace.place
+  simp only []
+  have e' : whileLoop (Gen.K08bPlace.place_body1 fuel (bytes cw) nrow ncol) fuel (List.replicate (nrow * ncol) (-1), 0, 4, 0) = _ := e
+  rw [e']
+  simp only [brk_thenR]
+  have hmul : 2 * ncol ≤ nrow * ncol := Nat.mul_le_mul_right ncol h2r
+  have hn : nrow * ncol - 1 < B'.length := by rw [I'.len]; omega
+  have hn2 : nrow * ncol - ncol - 2 < B'.length := by rw [I'.len]; omega
+  have hcell1 : ((nrow : Int) - 1) * (ncol : Int) + ((ncol : Int) - 1) = ((nrow * ncol - 1 : Nat) : Int) := by
+    have : ((nrow * ncol : Nat) : Int) = (nrow : Int) * (ncol : Int) := Int.natCast_mul _ _
+    rw [Int.sub_mul]; omega
+  have hcell2 : ((nrow : Int) - 2) * (ncol : Int) + ((ncol : Int) - 2) = ((nrow * ncol - ncol - 2 : Nat) : Int) := by
+    have : ((nrow * ncol : Nat) : Int) = (nrow : Int) * (ncol : Int) := Int.natCast_mul _ _
+    rw [Int.sub_mul]; omega
+  rw [k_hasBit_eq ncol B' _ _ _ hcell1 hn]
+  simp only [tryR_ok]
+  have hocc := I'.occ (nrow * ncol - 1) (by omega)
+  rw [List.getD_eq_getElem?_getD, List.getElem?_eq_getElem hn, Option.getD_some] at hocc
+  have hval : B' = paint cw (placeSeq nrow ncol) 0 (List.replicate (nrow * ncol) (-1)) := I'.val
+  unfold placeBits fixedUsed
+  simp only []
+  rw [← hval, ← hocc]
+  show (if (!(placeState nrow ncol).occ.testBit (nrow * ncol - 1)) = true then _ else _) = _
+  cases ht : (placeState nrow ncol).occ.testBit (nrow * ncol - 1) with
+  | true => simp
+  | false =>
+    simp only [Bool.not_false, if_true]
+    rw [k_setBit_eq ncol B' _ _ true _ hcell1 hn]
+    simp only [tryR_ok, if_true]
+    rw [k_setBit_eq ncol _ _ _ true _ hcell2 (by simpa using hn2)]
+    simp
+
 end Gzx.Obligations.K08c
